@@ -285,7 +285,9 @@ func verif_harness_C20_observe_concurrent() {
 	// the instance is built by the real NewMetrics (only the Prometheus
 	// constructors are replaced), so whatever state it sets up is there
 	verif_stub("github.com/prometheus/client_golang/prometheus.NewHistogramVec",
-		func(o prometheus.HistogramOpts, l []string) *prometheus.HistogramVec { return &prometheus.HistogramVec{} })
+		func(o prometheus.HistogramOpts, l []string) *prometheus.HistogramVec {
+			return &prometheus.HistogramVec{}
+		})
 	verif_stub("github.com/prometheus/client_golang/prometheus.NewCounterVec",
 		func(o prometheus.CounterOpts, l []string) *prometheus.CounterVec { return &prometheus.CounterVec{} })
 	pm := NewMetrics()
